@@ -32,6 +32,7 @@ type StructAnn struct {
 	invs     []specLine
 	elemInv  map[string][]specLine // channel field -> invariant over `elem`
 	openChan map[string]bool       // channel fields that are never closed
+	closeTok map[string]string     // channel field -> "" (swap discipline) or flag field name
 	line     int
 	file     string
 }
@@ -65,6 +66,7 @@ type FuncContract struct {
 	takes     map[string]bool
 	condTakes map[string]bool
 	acceptsShared map[string]bool
+	mayClose  []mayCloseClause
 	ownPrimitive bool
 	freshOnly bool
 	borrows   map[string]bool
@@ -373,6 +375,23 @@ func (a *Annotations) structClause(cs *StructAnn, word, rest string, sl specLine
 		for _, f := range strings.Fields(rest) {
 			cs.openChan[f] = true
 		}
+	case "close_token":
+		// close_token F G ...        (swap discipline)
+		// close_token F when flag    (flag discipline)
+		if cs.closeTok == nil {
+			cs.closeTok = map[string]string{}
+		}
+		fs := strings.Fields(rest)
+		if len(fs) == 3 && fs[1] == "when" {
+			cs.closeTok[fs[0]] = fs[2]
+		} else {
+			for _, f := range fs {
+				if f == "when" {
+					return fmt.Errorf("close_token F when flag")
+				}
+				cs.closeTok[f] = ""
+			}
+		}
 	case "elem_invariant":
 		// elem_invariant <chanfield>[,<chanfield>...]: <expr over elem>
 		i := strings.Index(rest, ":")
@@ -469,6 +488,14 @@ func (a *Annotations) funcClause(cf *FuncContract, word, rest string, sl specLin
 		for _, p := range strings.Fields(rest) {
 			cf.borrows[p] = true
 		}
+	case "may_close":
+		// may_close <expr> once|caller
+		i := strings.LastIndex(rest, " ")
+		if i < 0 || (rest[i+1:] != "once" && rest[i+1:] != "caller") {
+			return fmt.Errorf("may_close <expr> once|caller")
+		}
+		sl.text = strings.TrimSpace(rest[:i])
+		cf.mayClose = append(cf.mayClose, mayCloseClause{sl: sl, why: rest[i+1:]})
 	case "accepts_shared":
 		// the function promises to cope with a message that is shared (Clone'd) by its caller
 		for _, p := range strings.Fields(rest) {
